@@ -26,6 +26,7 @@
 EXTENDS Integers, Sequences, FiniteSets, TLC, Json, RatArith
 
 CONSTANTS CoreT,      \* core: sequence lengths 1..CoreT
+          EmbedT,     \* core: the long-sequence lemmas are checked on up to EmbedT positions
           CoreW,      \* core: set of integer weights
           CoreV,      \* core: set of integer values
           MaxRank,    \* layout: number of leading (non-sequence) dimensions 0..MaxRank
@@ -263,6 +264,40 @@ PermutationInvariant == CoreDone =>
   \A f \in Perms : Decl([t \in 1..T |-> w[f[t]]], {t \in 1..T : f[t] \in keep}, [t \in 1..T |-> val[f[t]]]) = res
 \* a factor common to all positions (a score offset that does not depend on t) cancels
 ScaleInvariant == CoreDone => \A c \in 1..3 : Decl([t \in 1..T |-> c * w[t]], keep, val) = res
+
+(***************************************************************************)
+(* Lemmas that carry the small universe to LONG sequences (the harness     *)
+(* builds sequences of 1024..2548 positions from every exported case).     *)
+(* g : 1..n -> 0..T tells which position of the case a position of the     *)
+(* long sequence repeats (weight, value and mask bit); 0 = an extra        *)
+(* position that is masked and holds anything.  Every position of the case *)
+(* is repeated the same number of times c >= 1, in any places.             *)
+(*  EmbedInvariant   (c = 1): a case over T positions equals the case over *)
+(*    n > T positions in which the n - T extra positions are masked,       *)
+(*    wherever the T positions are placed (in their order; any other order *)
+(*    is PermutationInvariant);                                            *)
+(*  ReplicaInvariant (c >= 2): repeating every position c times (and       *)
+(*    adding masked positions) does not change the result either: both the *)
+(*    numerator and the normaliser are multiplied by c.                    *)
+(***************************************************************************)
+DeclN(n, ww, kk, vv) == Attend([t \in 1..n |-> QInt(ww[t])], kk, [t \in 1..n |-> <<vv[t]>>], 1)[1]
+CountOf(g, n, t) == Cardinality({x \in 1..n : g[x] = t})
+ReplicaMaps(tt, n) == {g \in [1..n -> 0..tt] :
+                         CountOf(g, n, 1) >= 1 /\ \A t \in 2..tt : CountOf(g, n, t) = CountOf(g, n, 1)}
+\* evaluated once (a constant): the maps for every case length and every long length
+ReplicaTable == [tt \in 1..CoreT |-> [n \in 1..EmbedT |-> ReplicaMaps(tt, n)]]
+LongDecl(n, g, w2, v2) ==
+  DeclN(n, [x \in 1..n |-> IF g[x] = 0 THEN w2[x] ELSE w[g[x]]],
+        {x \in 1..n : g[x] # 0 /\ g[x] \in keep},
+        [x \in 1..n |-> IF g[x] = 0 THEN v2[x] ELSE val[g[x]]])
+Increasing(g, n) == \A x, y \in 1..n : (x < y /\ g[x] # 0 /\ g[y] # 0) => g[x] < g[y]
+LongAgrees(count1) ==
+  \A n \in (T + 1)..EmbedT :
+    \A g \in {h \in ReplicaTable[T][n] : (CountOf(h, n, 1) = 1) = count1 /\ (count1 => Increasing(h, n))} :
+      LET free == {x \in 1..n : g[x] = 0}
+      IN \A w2 \in [free -> CoreW], v2 \in [free -> CoreV] : LongDecl(n, g, w2, v2) = res
+EmbedInvariant == CoreDone => LongAgrees(TRUE)
+ReplicaInvariant == CoreDone => LongAgrees(FALSE)
 
 (***************************************************************************)
 (* Design invariants: layout                                               *)
